@@ -93,6 +93,25 @@ def graph_cases(ctx, thorough):
     return cases, r
 
 
+def name_boundaries():
+    """Names and link targets whose lengths sit at the boundaries of one and two byte length fields (254..257, 1000, 65535), as group,
+    dataset, hard, soft and external link, alone and as the second long name in the same group; 8 and 9 links in one group."""
+    cases = []
+    for L in (254, 255, 256, 257, 1000, 4000):
+        for sb in (0, 2, 3):
+            n1, n2 = "g" * L, "h" * (L - 1) + "2"
+            ops = [{"op": "mkgroup", "p": "/" + n1}, {"op": "mkds", "p": "/" + n1 + "/" + "d" * L, "dt": "i32", "dims": [2]},
+                   {"op": "write", "p": "/" + n1 + "/" + "d" * L, "data": "seq"}, {"op": "mkgroup", "p": "/" + n2},
+                   {"op": "hlink", "p": "/" + "l" * L, "t": "/" + n1 + "/" + "d" * L}, {"op": "slink", "p": "/s" + "s" * (L - 1), "t": "/" + n1},
+                   {"op": "slink", "p": "/t", "t": "/" + "x" * L}, {"op": "xlink", "p": "/x" + "x" * (L - 1), "f": "f" * L + ".h5", "t": "/" + "y" * L},
+                   {"op": "mkgroup", "p": "/" + n2 + "/after"}, {"op": "mkds", "p": "/plain", "dt": "u8", "dims": [1]}]
+            cases.append({"cfg": {"sb": sb, "rb": "", "style": 0, "tag": "C03-name-lengths"}, "ops": ops})
+    for L in (65535, 65536):
+        cases.append({"cfg": {"sb": 2, "rb": "", "style": 0, "tag": "C03-name-lengths"},
+                      "ops": [{"op": "mkgroup", "p": "/" + "g" * L}, {"op": "slink", "p": "/t", "t": "/" + "x" * L}, {"op": "mkgroup", "p": "/after"}]})
+    return cases
+
+
 def nontrivial(c):
     kinds = {o["op"] for o in c["ops"]}
     return len(c["ops"]) >= 2 and ("hlink" in kinds or len([o for o in c["ops"] if o["op"] in ("mkgroup", "mkds")]) >= 2)
@@ -115,7 +134,7 @@ def run(ctx):
               ("C03Model.tla", "C03_links.cfg")]    # groups created together with 0, 1, 8, 9, 12 links (symbol table / dense storage)
     return run_logical(
         ctx, LEVEL, models,
-        extra_cases=random_trees(ctx, 300 if thorough else 40) + graph_cases(ctx, thorough)[0],
+        extra_cases=random_trees(ctx, 300 if thorough else 40) + graph_cases(ctx, thorough)[0] + name_boundaries(),
         nontrivial=nontrivial,
         rule="cases = every history of <= Depth create/link calls (mkgroup, mkds, hard/soft/external link; duplicates and "
              "missing parents included) over the path alphabet {a,b} depth<=2 generated by TLC from H5Logical, on superblock "
